@@ -3,6 +3,7 @@
 //@ assume: T4: the five skill `process` bodies and `DifficultyValues::eval` are replaced by no-op stubs during verification (float pipelines); their frame - they do not write idx, the object list, its iterator or max_combo - is assumed. Native replays run the real skills.
 //@ assume: inductive-step argument (healthy class: map has M >= 3 objects and its first two objects are hits): obligations are proved from ANY state satisfying the representation invariant (total_hits == number of hits H, diff_objects holds objects 2..M-1, idx <= H, iterator positioned directly after the difficulty object that produced value idx (at 0 while idx <= 2; anywhere from there to the end once idx == H), attrs.max_combo == idx, first_combos == Both); that `new` establishes it is not proved
 //@ assume: bounded: M (number of hit objects) is fixed per harness; hit/non-hit types of objects 2..M-1 are symbolic; idx and the nth argument are fully symbolic
+//@ attr: file=src/taiko/performance/gradual.rs anchor=`pub fn next(&mut self, state: TaikoScoreState)` insert=`#[cfg(kani)] pub(crate) fn __verif_from_parts(difficulty: TaikoGradualDifficulty) -> Self { Self { difficulty } }`
 use super::*;
 use crate::taiko::difficulty::color::color_data::ColorData;
 use crate::taiko::difficulty::object::MonoIndex;
@@ -250,3 +251,111 @@ stubs! { fn u12_taiko_nonhit_first() {
     assert!(g.idx <= hits, "C15.d exhausted calculator: len() does not underflow");
     mem::forget(g);
 } }
+
+// ---- C03: gradual performance = one-shot performance of the partial play ------------------------------------------
+use crate::taiko::performance::gradual::TaikoGradualPerformance;
+use crate::taiko::performance::TaikoPerformance;
+use crate::taiko::{TaikoPerformanceAttributes, TaikoScoreState};
+
+static mut EXP_BITS: u32 = 0;
+static mut EXP_PASSED: Option<u32> = None;
+static mut EXP_LAZER: Option<bool> = None;
+static mut EXP_STATE: [u32; 4] = [0; 4];
+static mut EXP_I: u32 = 0;
+static mut REC_CALLS: u32 = 0;
+static mut REC_MATCH: bool = false;
+
+fn user_difficulty() -> Difficulty {
+    unsafe {
+        let mut d = Difficulty::new().mods(EXP_BITS);
+        if let Some(p) = EXP_PASSED {
+            d = d.passed_objects(p);
+        }
+        if let Some(l) = EXP_LAZER {
+            d = d.lazer(l);
+        }
+        d
+    }
+}
+
+fn user_state() -> TaikoScoreState {
+    unsafe { TaikoScoreState { max_combo: EXP_STATE[0], n300: EXP_STATE[1], n100: EXP_STATE[2], misses: EXP_STATE[3] } }
+}
+
+fn rec_calculate<'map>(this: TaikoPerformance<'map>) -> Result<TaikoPerformanceAttributes, ConvertError>
+where
+    'map: 'map, // early-bound, so that the generic parameter count matches the stubbed method
+{
+    unsafe {
+        REC_CALLS += 1;
+        let expect = this.clone().difficulty(user_difficulty()).passed_objects(EXP_I).state(user_state());
+        REC_MATCH = this == expect;
+        mem::forget(expect);
+    }
+    mem::forget(this);
+    Ok(TaikoPerformanceAttributes::default())
+}
+
+fn perf_step(types: &[bool], idx: usize) {
+    let (mut g, hits) = state_at(types, Some((idx, false)));
+    unsafe {
+        EXP_BITS = kani::any();
+        EXP_PASSED = if kani::any() { Some(kani::any()) } else { None };
+        EXP_LAZER = if kani::any() { Some(kani::any()) } else { None };
+        EXP_STATE = kani::any();
+        REC_CALLS = 0;
+        REC_MATCH = false;
+    }
+    g.difficulty = user_difficulty();
+    let idx0 = g.idx;
+    let remaining = hits - idx0;
+    let mut p = TaikoGradualPerformance::__verif_from_parts(g);
+    let which: u8 = kani::any();
+    let k: usize = kani::any();
+    let consumed = match which % 3 {
+        0 => if remaining > 0 { 1 } else { 0 },
+        1 => remaining,
+        _ => if k < remaining { k + 1 } else { remaining },
+    };
+    unsafe {
+        EXP_I = (idx0 + consumed) as u32;
+    }
+    let ret = match which % 3 {
+        0 => p.next(user_state()),
+        1 => p.last(user_state()),
+        _ => p.nth(user_state(), k),
+    };
+    assert!(p.len() == remaining - consumed, "C15.e gradual performance processes min(n+1, remaining) objects (last: all remaining)");
+    assert!(ret.is_some() == (remaining > 0), "C15.e gradual performance returns None exactly when nothing remains");
+    unsafe {
+        if remaining == 0 {
+            assert!(REC_CALLS == 0, "C03 nothing is calculated when nothing remains");
+        } else {
+            assert!(REC_CALLS == 1, "C03 exactly one performance calculation per step");
+            assert!(REC_MATCH, "C03 gradual performance evaluates exactly the one-shot builder: same settings, passed_objects(i), same state");
+        }
+    }
+    mem::forget(p);
+}
+
+//@ obl: id=U12.taiko.perf.hhh harness=u12_taiko_perf_hhh stubs=yes props=C03,C15 tier=quick kind=bounded
+//@ fns: TaikoGradualPerformance::next, TaikoGradualPerformance::nth, TaikoGradualPerformance::last, TaikoGradualPerformance::len
+//@ bound: bounded: map of three hits; every calculator position 0..=3 enumerated; the nth argument, the score state and the caller's Difficulty (mods bits, passed_objects, lazer) symbolic; TaikoPerformance::calculate replaced by a recording stub
+//@ clause: C15 (e) and C03 as for the other modes: min(n+1, remaining) objects processed, None exactly when nothing remains, and the builder that gets calculated equals Performance(attrs_i).difficulty(D).passed_objects(i).state(S)
+#[kani::proof]
+#[kani::unwind(8)]
+#[kani::stub(crate::taiko::difficulty::DifficultyValues::eval, stub_eval)]
+#[kani::stub(<TaikoSkills as std::clone::Clone>::clone, stub_skills_clone)]
+#[kani::stub(<Rhythm as StrainSkill>::process, stub_rhythm)]
+#[kani::stub(<Reading as StrainSkill>::process, stub_reading)]
+#[kani::stub(<Color as StrainSkill>::process, stub_color)]
+#[kani::stub(<Stamina as StrainSkill>::process, stub_stamina)]
+#[kani::stub(crate::taiko::performance::TaikoPerformance::calculate, rec_calculate)]
+fn u12_taiko_perf_hhh() {
+    let types = [true, true, true];
+    let mut idx = 0;
+    while idx <= 3 {
+        perf_step(&types, idx);
+        idx += 1;
+    }
+}
